@@ -133,6 +133,13 @@ MISSED_FIRST = {"C01_s1": "C01 (no threaded / chunked draws) -> strategy draws (
                 "C17_s2": "C17 (string / float keys) -> categorical keys with an unused category",
                 "C19_s1": "C19 (non-negative positions) -> positional masks with entries counted from the end",
                 "C19_s2": "C19 (head(v, 1) / head(v, 2, keep_input_index=True)) -> head / tail that take every row, keys already in group order",
+                "C02_s5": "C02 (RangeIndex keys with positive steps) -> negative steps, codes and groups views",
+                "C10_s4": "C10 (contiguous keys only; C13 caught it) -> GroupBy.ema on chunk-wise factorized keys (threshold 2/4, pa.ChunkedArray) (this also exposed a genuine defect, fixed in f28f257)",
+                "C10_s5": "C10 (values in {1,2,3}) -> zeros, negative and cancelling values",
+                "C06_s3": "C06 (thread-guard false alarm: a joined thread still listed by the kernel under load -> guard now waits for it to be reaped; C02 caught the seed) -> detected by C06 on the re-run",
+                "C06_s4": "C06 (same thread-guard false alarm; and only 8 transform-on-chunked-keys cases; C07 caught it) -> 60% of the transform cases of single-key pairs run on chunk-wise factorized keys",
+                "C03_s3": "C03 (same thread-guard false alarm; C04 caught the seed) -> detected by C03 on the re-run",
+                "C03_s4": "C03 (sort=True only; C11 caught it) -> 30% of the strategy products run with sort=False",
                 "C16_s2": "C16 (sorted q lists; values compared without their labels) -> unsorted q lists, entry labelled (group, q_j) compared with np.quantile's j-th entry"}
 
 
